@@ -43,7 +43,7 @@ def ref_rule(model, ctx, rule, ref, refs, fact, why, construct=None, inline=Fals
     nested = any(isinstance(n, (ast.FunctionDef, ast.AsyncFunctionDef, ast.Lambda)) and n is not fn for n in ast.walk(fn)) or \
         any(isinstance(n, (ast.FunctionDef, ast.AsyncFunctionDef, ast.Lambda)) for r in refs if isinstance(r, str) for n in ast.walk(ast.parse(r)))
     return refsem.compare(ctx, rule, construct or qual, f"{rel}:{fn.lineno}", qual, paths, refs, fact=fact, why=why, raises=raises,
-                          rewrite=rewrite, undecided="nested function definitions" if nested else None)
+                          rewrite=rewrite, undecided="nested function definitions" if nested else None, strict_expr=True)
 
 
 # ------------------------------------------------------------------------------------------------ reference files
